@@ -18,6 +18,7 @@ func init() {
 			"PV-PAIR operands matched by key; CH-SIB key of the empty label set (vector(c) vs an ungrouped aggregation); PV-RESET step stamped",
 			"PV-FRESH per-step tables of the binary operation",
 			"AF-SET nested by/without; PV-ROLE reported value = strconv.FormatFloat(v, 'f', -1, 64) on every path",
+			"PV-RESET literalBinOpIterator.Next: accepted results reach r.Samples and the list is cut/set to them",
 		},
 		NotDecided: []string{"floating-point results", "per-step alignment of the two sides beyond 'built with the same parameters'"},
 		Rules: func(r *Run) {
@@ -34,6 +35,7 @@ func init() {
 			rulePerStepGroupTables(r, []string{"binOpIterator"})
 			ruleByNesting(r) // operands match by their label sets: a label removed by an inner aggregation stays removed
 			ruleSampleValueFormat(r)
+			ruleLiteralBinOpWritesBack(r)
 		},
 	})
 }
